@@ -17,9 +17,9 @@ import obs
 import rt
 import c09
 
-ERRORS = {"default": ["ENOSPC", "EIO", "EACCES"], "write": ["ENOSPC", "EINTR", "EIO", "EACCES", "EAGAIN", "EFBIG"],
+ERRORS = {"default": ["ENOSPC", "EIO", "EACCES"], "write": ["ENOSPC", "EINTR", "EIO", "EBADF", "EACCES", "EAGAIN", "EFBIG", "EDQUOT", "EPERM", "EROFS"],
           "pwrite64": ["ENOSPC", "EINTR"], "mkdir": ["ENOSPC", "EACCES", "EEXIST", "ENOTDIR", "EIO"],
-          "openat": ["ENOSPC", "EACCES", "ENOENT", "EMFILE", "EIO", "EINTR"], "read": ["EIO", "EINTR", "EACCES"], "close": ["EIO", "ENOSPC"],
+          "openat": ["ENOSPC", "EACCES", "ENOENT", "EMFILE", "EIO", "EINTR", "ENFILE", "EROFS", "EDQUOT", "ENOMEM", "ELOOP"], "read": ["EIO", "EINTR", "EACCES", "EBADF", "EAGAIN", "EISDIR"], "close": ["EIO", "ENOSPC", "EBADF", "EINTR", "EDQUOT"],
           "unlink": ["EACCES", "EIO", "EBUSY"], "rmdir": ["EACCES", "EBUSY", "EIO"], "newfstatat": ["EACCES", "EIO"],
           "getdents64": ["EIO", "EACCES"],
           # calls that a different implementation of the relocation might use
@@ -186,8 +186,9 @@ def main(argv):
                     ks = ks[:6] + rng.sample(mid, min(len(mid), 10 if quick else 60)) + ks[-3:]
                 for k in ks:
                     errs = ERRORS.get(sc, ERRORS["default"])
-                    if quick:
-                        errs = errs[:2]
+                    if quick and len(errs) > 2:
+                        # the first two always, the others in turn over the occurrences of the call
+                        errs = errs[:2] + [errs[2 + (k - 1) % (len(errs) - 2)]]
                     for e in errs:
                         work.append((name, script, mode, sc, k, e))
             npoints["%s/%s" % (name, mode)] = len(pts)
